@@ -287,7 +287,7 @@ func (v *JV) Paths() []JPath {
 }
 
 // FaultOps are the schema-fault operators (null, wrong type x4, empty, absent, duplicated, oversized, deep).
-var FaultOps = []string{"null", "number", "string", "bool", "object", "array", "empty", "absent", "duplicate", "oversized", "deep", "negative", "float", "nulls", "null_run"}
+var FaultOps = []string{"null", "number", "string", "bool", "object", "array", "empty", "absent", "duplicate", "oversized", "deep", "negative", "float", "nulls", "null_run", "blank"}
 
 // ApplyFault applies op at path p (in place; use on a clone). Returns false when not applicable.
 func ApplyFault(p JPath, op string) bool {
@@ -363,6 +363,12 @@ func ApplyFault(p JPath, op string) bool {
 		default:
 			return false
 		}
+	case "blank":
+		// a string that is not empty but holds white space only (guards that test for "" and uses that trim disagree on it)
+		if cur().Kind != 's' {
+			return false
+		}
+		set(JString(" \t"))
 	case "nulls", "null_run":
 		// runs of adjacent nulls in a list: all entries null, or the entries followed by two nulls (code that drops
 		// null entries while iterating tends to skip the neighbour of a dropped one)
